@@ -466,6 +466,140 @@ def r3_parser_position_free(ctx):
     ctx.floor("parser bodies examined", n_fn, 15)
 
 
+# ---------------------------------------------------------------------------------------------------------------------
+# R5: every &str range taken by the diagnostic renderer has character-boundary bounds
+DIAG = "diagnostics::Diagnostics::"
+
+
+def _args_top(t):
+    out = []
+    while t:
+        a, t = split_top(t)
+        out.append(a)
+    return out
+
+
+def boundary_expr(t, params=()):
+    """Is the (deep, normalised) expression a byte offset that is a character boundary of the source?  Grammar:
+    span component | line_start/line_end as returned by line_col_from_span | element of compute_line_starts (or one before:
+    the byte before a line start is an ASCII line terminator) | len(src) | 0 | min/max of boundaries | a parameter that
+    every caller fills with a boundary."""
+    t = t.strip()
+    if t in ("0", "len(src)", "len(text)") or t in params:
+        return True
+    if re.search(r"\.span\.(start|end)$", t) and "(" not in t.rsplit(".span.", 1)[1]:
+        return True
+    if re.match(r"^line_col_from_span\(.*\)\.(2|3)$", t):
+        return True
+    m = re.match(r"^(min|max)\((.*)\)$", t)
+    if m:
+        parts = _args_top(m.group(2))
+        return len(parts) == 2 and all(boundary_expr(x, params) for x in parts)
+    if re.match(r"^index\((compute_line_starts\(self,src\)|line_starts),.*\)$", t):
+        return True
+    m = re.match(r"^Sub\((index\((?:compute_line_starts\(self,src\)|line_starts),.*\)),1\)$", t)
+    if m:
+        return True
+    return False
+
+
+def r5_renderer_boundaries(ctx):
+    n = 0
+    fns = [f for f in ctx.lib.fns.values() if f.file == "src/diagnostics.rs" and parent_fn(f.id).startswith(DIAG)]
+    lc = ctx.need(DIAG + "line_col_from_span")
+    for fn in fns:
+        ctx.touch(fn)
+        params = ("start",) if fn.id == lc.id else ()
+        for c in fn.calls():
+            cal = c.callee or ""
+            if not (cal.startswith("core::str::traits::") and "index" in cal) and not (cal.endswith("::get_unchecked") and "str" in cal):
+                continue
+            base = sh(ne(fn.deep(c.args[0])))
+            if base not in ("src",):
+                continue    # slices of strings built by the renderer itself (expanded lines, gutters) are not source offsets
+            n += 1
+            alts = fn.alt_exprs(c.args[1])
+            short = fn.id.split("::")[-1]
+            ordn = sum(1 for r in ctx.records if r["rule"] == ctx.rule and r["instance"].startswith("slice|%s#" % short))
+            key = "slice|%s#%d" % (short, ordn + 1)
+            bad = None
+            for a in alts:
+                txt = sh(ne(a))
+                m = re.match(r"^Range(?:To|From|Inclusive)?::Range(?:To|From|Inclusive)?\{(.*)\}$", txt)
+                if not m:
+                    bad = txt
+                    break
+                for bound in _args_top(m.group(1)):
+                    if not boundary_expr(bound, params):
+                        bad = bound
+                        break
+                if bad:
+                    break
+            loose = sh(ne(fn.expr(c.args[1], 3)))
+            if bad is None:
+                ctx.ok(key, fn.where(c.block), "src[%s]: both bounds are span components / line boundaries / min of those" % loose[:70])
+            else:
+                ctx.bad("slice-bound|%s|%s" % (short, re.sub(r"\s+", "", sh(ne(fn.expr(c.args[1], 3))))[:60]), fn.where(c.block),
+                        "the renderer slices the source text at `%s`, which is computed (not a span component, a line boundary or a min/max of those): when it falls inside a multi-byte character the slice panics while the diagnostic is printed" % bad[:90])
+    ctx.floor("source slices in the diagnostic renderer", n, 7)
+    # the parameter `start` of line_col_from_span is filled with a boundary by every caller
+    for c in ctx.lib.callers_of(lc.id):
+        t = sh(ne(c.fn.deep(c.args[2])))
+        if boundary_expr(t):
+            ctx.ok("line_col_from_span|arg|%s" % c.fn.id.split("::")[-1], c.fn.where(c.block), "called with %s" % t[-40:])
+        else:
+            ctx.bad("line_col_from_span|arg|%s" % c.fn.id.split("::")[-1], c.fn.where(c.block), "line_col_from_span is called with `%s`, not a span component: it slices src[line_start..start]" % t[:60])
+    # its result components 2 and 3 are line boundaries
+    for b in sorted(lc.live):
+        for st in lc.blocks[b]["s"]:
+            if st["lhs"]["l"] == 0 and not st["lhs"]["p"] and st["rv"]["k"] == "agg":
+                for i in (2, 3):
+                    alts = [sh(ne(a)) for a in lc.alt_exprs(st["rv"]["ops"][i])]
+                    if all(boundary_expr(a) for a in alts):
+                        ctx.ok("line_col_from_span|result.%d" % i, lc.where(b), " | ".join(x[-50:] for x in alts))
+                    else:
+                        ctx.bad("line_col_from_span|result.%d" % i, lc.where(b), "component %d of line_col_from_span's result is `%s`: not an element of the line-start table, one before it, or the text length" % (i, [a for a in alts if not boundary_expr(a)][0][:80]))
+    # the line-start table holds 0 and positions just after an ASCII line terminator found by memchr2(CR, LF)
+    cs = ctx.need(DIAG + "compute_line_starts")
+    ctx.touch(cs)
+    pushes = [c for c in cs.calls() if (c.callee or "").endswith("::push")]
+    for c in pushes:
+        t = collapse_memchr(sh(ne(cs.deep(c.args[1]))))
+        raw = sh(ne(cs.deep(c.args[1])))
+        needles_ok = all(int(x) < 128 for pair in re.findall(r"memchr2\((\d+),(\d+),", raw) for x in pair) and ("memchr" not in raw or re.search(r"memchr2\(\d+,\d+,", raw))
+        ordn = sum(1 for r in ctx.records if r["rule"] == ctx.rule and r["instance"].startswith("line-start|%s" % t))
+        key = "line-start|%s#%d" % (t, ordn + 1)
+        if t == "0":
+            ctx.ok(key, cs.where(c.block), "first line starts at 0")
+        elif t == "Add(M,1)" and needles_ok:
+            ctx.ok(key, cs.where(c.block), "one past an ASCII terminator found by memchr2")
+        elif t == "Add(M,2)" and needles_ok:
+            facts = [(collapse_memchr(sh(ne(cs.deep(cs.blocks[S]["t"]["d"])))), al) for S, al in cs.constraints(c.block)]
+            if any(re.match(r"^Eq\(src\[Add\(M,1\)\],(10|13)\)$", f) and 0 not in al for f, al in facts):
+                ctx.ok(key, cs.where(c.block), "two past the terminator, under src[idx+1] == LF")
+            else:
+                ctx.bad("line-start|Add(M,2)|unchecked", cs.where(c.block), "a line start is recorded two bytes after a terminator without testing that the byte after it is an ASCII terminator too: it can fall inside a multi-byte character")
+        else:
+            ctx.bad("line-start|%s" % t[:40], cs.where(c.block), "a line start `%s` is not 0 or one/two past an ASCII line terminator located by memchr2" % raw[:80])
+    ctx.floor("line-start pushes", len(pushes), 4)
+    # spans are not computed outside the scanner: resolver, analyses, runtime and renderer only copy them (the parser is R3)
+    m = 0
+    for fn in ctx.lib.fns.values():
+        if fn.file in ("src/syntax/scanner.rs", "src/syntax/parser.rs") or not fn.file.startswith("src/"):
+            continue
+        m += 1
+        for b in sorted(fn.live):
+            for s2 in fn.blocks[b]["s"]:
+                rv = s2["rv"]
+                if rv["k"] == "bin" and rv["op"] in ("Add", "Sub", "Mul", "Div", "AddWithOverflow", "SubWithOverflow", "MulWithOverflow", "Shr", "Shl"):
+                    for o in (rv["a"], rv["b"]):
+                        t = sh(ne(fn.expr(o, 6)))
+                        if re.search(r"span\.(start|end)$", t):
+                            ctx.bad("span-arithmetic|%s|%s" % (fn.id, rv["op"]), fn.where(b), "%s computes %s on a span component (%s) outside the scanner: the result is used as a source offset and need not be a character boundary" % (fn.id.split("::")[-1], rv["op"], t[:50]))
+    if not any(r["rule"] == ctx.rule and r["status"] == "violation" and r["instance"].startswith("span-arithmetic") for r in ctx.records):
+        ctx.ok("no-span-arithmetic-outside-scanner", "src", "%d bodies outside scanner/parser: spans are only copied and compared" % m)
+
+
 BUMPERS_SEED = {"syntax::parser::Parser::bump"}
 
 
@@ -564,7 +698,7 @@ def r8_local_ranges_cover_ids(ctx):
         ctx.bad("locals-range|unrecognised|%s" % writes[0][1][:30], f.where(writes[0][0]), "cannot see that the local range covers the allocated id: `%s`" % writes[0][1])
 
 
-RULES = [("C07-R1", r1_cursor_discipline), ("C07-R2", r2_unchecked_reslicing), ("C07-R2b", r2b_byte_reads_in_bounds),
+RULES = [("C07-R1", r1_cursor_discipline), ("C07-R2", r2_unchecked_reslicing), ("C07-R2b", r2b_byte_reads_in_bounds), ("C07-R5", r5_renderer_boundaries),
          ("C07-R3", r3_parser_position_free), ("C07-R4", r4_recovery_progress), ("C07-R8", r8_local_ranges_cover_ids)]
 
 EXPLANATION = (
